@@ -110,7 +110,8 @@ def run(plan):
         for op in plan["ops"]:
             kind = op["op"]
             n0 = len(dev.log)
-            expected_tok = stored[0]
+            # the token the client is configured with at this moment (its public attribute)
+            expected_tok = bytes.fromhex(ac.token) if ac.token else None
             if kind in ("auth", "lan_auth"):
                 tok, _k = s.creds(op.get("cred", "good"))
                 expected_tok = bytes.fromhex(tok) if isinstance(tok, str) else tok
